@@ -61,7 +61,9 @@ func c15FlipCheck() error {
 	if err != nil || before != plain {
 		return fmt.Errorf("schema of a type holding a registered type: %s (err %v)", before, err)
 	}
-	avro.RegisterSchema(u16x5Type, toLib(ref.Nullable(ref.Prim("bytes"))))
+	tmpl := toLib(ref.Nullable(ref.Prim("bytes")))
+	avro.RegisterSchema(u16x5Type, tmpl)
+	scrambleLibSchema(&tmpl) // the caller's own value, edited after the call
 	during, err := gen1()
 	avro.RegisterSchema(u16x5Type, toLib(ref.Prim("bytes")))
 	if err != nil || during != nullable {
